@@ -275,7 +275,7 @@ class World:
             from mathy_core.tree import BinaryTreeNode
             n = nodes[op[1] % len(nodes)]
             if kind == "grow":
-                if len(nodes) >= 40:
+                if len(nodes) >= 80:
                     self.res.events.append("grow skip")
                     return fs
                 # attach a fresh leaf (or a two-leaf node) in an empty slot of n
@@ -457,10 +457,10 @@ class LayoutSim:
             return cfg
         r = rng.random()
         if r < 0.45:
-            n = rng.choice([3, 5, 6, 8, 10, 12, 15, 18, 21, 25])
+            n = rng.choice([3, 5, 6, 8, 10, 12, 15, 18, 21, 25, 30, 40, 60])
             cfg["tree"] = {"kind": "shape", "shape": random_shape(rng, n, "any")}
         elif r < 0.75:
-            n = rng.choice([3, 5, 7, 9, 11, 13, 15, 17, 21, 25, 31])
+            n = rng.choice([3, 5, 7, 9, 11, 13, 15, 17, 21, 25, 31, 41, 63])
             cfg["tree"] = {"kind": "shape", "shape": random_shape(rng, n, "full")}
         else:
             g = {"depth": rng.choice([2, 3, 4]), "space": 1, "floats": False, "eq": True,
@@ -524,7 +524,7 @@ class LayoutSim:
         }
 
     def assumptions(self, prop):
-        return ["unit multipliers are positive", "shapes <= 31 nodes in random strata; exhaustive strata bounded "
+        return ["unit multipliers are positive", "shapes <= 63 nodes in random strata; exhaustive strata bounded "
                 "by node count (7 quick, 10 thorough)",
                 "the pristine-clone layout is the meaning of 'depends only on the shape'"]
 
